@@ -155,6 +155,9 @@ def run(rep: core.Report):
     _r10f(rep)
     _r10g(rep)
     _r10h(rep)
+    from rules import shared_sorted
+
+    shared_sorted.run(rep, "R10j", ["phonopy/phonon/thermal_properties.py"])
 
 
 # ---------------------------------------------------------------------------
